@@ -362,9 +362,9 @@ func replyFor(g *genCtx, sp sessParams, class byte, fn, cmdNo byte, prefix []byt
 func genSend(g *genCtx) {
 	alphabet := "FEBTXUVWSNCPAGKRML"
 	suites := [][2]byte{{1, 1}, {3, 4}, {2, 2}, {1, 4}, {3, 1}}
-	depth := 2
+	depth := 3
 	if g.thorough() {
-		depth = 3
+		depth = 4
 	}
 	var params []sessParams
 	for _, s := range suites {
@@ -421,8 +421,11 @@ func genSend(g *genCtx) {
 	}
 	for si, sp := range params {
 		for _, script := range scripts {
-			if si > 0 && len(script) > 1 && !g.thorough() {
-				continue // full depth on the first suite; the others get depth 1 in the quick tier
+			if si > 0 && len(script) >= depth {
+				continue // full depth on the first suite; one level less on the others
+			}
+			if g.thorough() && len(script) == 4 && g.rng.Intn(4) != 0 {
+				continue // depth 4 is sampled (1 in 4) in the thorough tier
 			}
 			fn := byte(g.rng.Intn(0x16)) << 1
 			var body byte
